@@ -177,9 +177,9 @@ func checkBase(c *engine.Ctx, r *engine.R, p *Prog) {
 	}
 	r.Count("bases_accepted", 1)
 	if base.err != "" {
-		r.Outcome("base raises")
+		r.Outcome("base raises " + strings.SplitN(base.err, " ", 2)[0])
 	} else {
-		r.Outcome("base ok")
+		r.Outcome(fmt.Sprintf("base prints %q", trunc(base.out, 16)))
 	}
 	vs := variants(p)
 	got := make([]*obs, len(vs))
@@ -229,7 +229,7 @@ func checkBase(c *engine.Ctx, r *engine.R, p *Prog) {
 		r.NT(1)
 		r.Count("variants "+strings.SplitN(v.edit, " ", 2)[0], 1)
 		if o.key() == base.key() {
-			r.Outcome("same")
+			r.Outcome("same after " + strings.SplitN(v.edit, " ", 2)[0])
 			continue
 		}
 		eff := effect(base, o)
@@ -252,7 +252,7 @@ func main() {
 	engine.Main(&engine.Spec{
 		Prop:  "C12",
 		Level: "exploration",
-		Rule: "base programs: every combination of 18 leaf method shapes (typed returns with `return` in every position, locals, loops, closures, narrowing, declared throws, catch/finally), 5 caller shapes " +
+		Rule: "base programs: every combination of 22 leaf method shapes (typed returns with `return` in every position, locals, loops, closures, narrowing, declared throws, catch/finally, defer), 5 caller shapes " +
 			"and top-level shapes arranged as 1–4 methods (thorough: all caller×leaf pairs); for each accepted base, every single application of: an unused local (`u9 := 1`, `u9 := -> 1`, `u9 := |q9: Int| -> q9`) " +
 			"before every statement of every body; renaming of every declared local/parameter; parentheses around every expression node; every non-identity permutation of the method definitions; " +
 			"oracle: same verdict, stdout and uncaught error as the base; every variant is a distinct program (non-trivial)",
